@@ -629,7 +629,7 @@ func binop(op token.Token, t types.Type, x, y value) value {
 	case token.SHL:
 		u, ok := asUnsigned(y)
 		if !ok {
-			panic("negative shift amount")
+			panic(runtimeError("negative shift amount"))
 		}
 		y := asUint64(u)
 		switch x.(type) {
@@ -660,7 +660,7 @@ func binop(op token.Token, t types.Type, x, y value) value {
 	case token.SHR:
 		u, ok := asUnsigned(y)
 		if !ok {
-			panic("negative shift amount")
+			panic(runtimeError("negative shift amount"))
 		}
 		y := asUint64(u)
 		switch x.(type) {
@@ -979,7 +979,8 @@ func typeAssert(i *interpreter, instr *ssa.TypeAssert, itf iface) value {
 
 	if err != "" {
 		if !instr.CommaOk {
-			panic(err)
+			// a run-time panic of the program under test, not an engine failure
+			panic(runtimeError(err))
 		}
 		return tuple{zero(instr.AssertedType), false}
 	}
